@@ -46,6 +46,11 @@ pub fn adversarial_classes() -> Vec<metatype::Class> {
     ]
 }
 
+/// Type map with the verification classes of harness/metatypes/verif.json (VBase, VDerived, VOther).
+pub fn load_verif_type_map() -> TypeMap {
+    load_type_map(&[include_str!("../metatypes/verif.json")])
+}
+
 pub fn load_type_map_with(extra: Vec<metatype::Class>) -> TypeMap {
     let mut type_map = TypeMap::with_primitive_types();
     let mut classes = load_qt_classes();
